@@ -141,6 +141,7 @@ def r4_unordered_samples(ctx):
 
 
 def run(ctx):
+    ctx.guard("C13.K17", "constructor fidelity", lambda: __import__("ctor").check_for(ctx, "C13", 57))
     ctx.guard("C13.R2", "permutation helpers", lambda: r2_helpers(ctx))
     ctx.guard("C13.R3", "guard conflicts", lambda: r3_guards(ctx))
     ctx.guard("C13.R4", "unordered samples", lambda: r4_unordered_samples(ctx))
@@ -522,7 +523,7 @@ MC = "mahf::components::mutation::common::"
 IND = "mahf::problems::individual::Individual"
 
 
-def draw_oracle(script, rate, extra=None):
+def draw_oracle(script, rate, extra=None, self_ty=None):
     """random draws answered from the script (NeedDraw with the domain when it is exhausted)"""
     import itertools
     from absint import Sym, Agg, TOP, some, ok
@@ -551,6 +552,10 @@ def draw_oracle(script, rate, extra=None):
             return Vec("cur", True)
         if k in ("mahf::state::registry::StateRegistry::borrow", "mahf::state::registry::StateRegistry::get_value", "mahf::state::registry::StateRegistry::borrow_value"):
             ga = (f.get("gargs") or [""])[0]
+            if self_ty and ga.startswith("mahf::components::mutation::Mutation") and ga not in ("mahf::components::mutation::MutationRate<%s>" % self_ty, "mahf::components::mutation::MutationStrength<%s>" % self_ty):
+                # the parameter state of ANOTHER instantiation (e.g. the default identifier): this instance never inserted it
+                interp.mstate["foreign_state"] = interp.mstate.get("foreign_state", ()) + (ga,)
+                return "DIVERGE"
             if ga.startswith("mahf::components::mutation::MutationRate<"):
                 interp.mstate["rate_reads"] = interp.mstate.get("rate_reads", 0) + 1
                 r = Agg("adt", "mahf::components::mutation::MutationRate", "MutationRate", [rate, Sym("phantom")])
@@ -604,6 +609,7 @@ def draw_oracle(script, rate, extra=None):
 
 
 def run_component(F, fn, me, sols, rate, extra=None, heap_extra=None):
+    self_ty = fn.impl_self_ty
     """[(draw script, end, ret, final solutions, mstate)] over every draw sequence"""
     from absint import Interp, Sym, Agg, some, std_oracle, chain
     from collmodel import coll_oracle, install, Vec
@@ -611,7 +617,7 @@ def run_component(F, fn, me, sols, rate, extra=None, heap_extra=None):
                      or k.startswith("mahf::components::mutation::") or k.startswith("<mahf::components::mutation::"))
 
     def once(script):
-        it = install(Interp(fn.body, chain(draw_oracle(script, rate, extra), coll_oracle, std_oracle), [me, Sym("problem"), Sym("state")], facts=F, inline=inl, max_visits=60))
+        it = install(Interp(fn.body, chain(draw_oracle(script, rate, extra, self_ty), coll_oracle, std_oracle), [me, Sym("problem"), Sym("state")], facts=F, inline=inl, max_visits=60))
         heap = {"cur": tuple(Agg("adt", IND, "Individual", [Vec("s%d" % i), some(Sym("o%d" % i))]) for i in range(len(sols)))}
         for i, sv in enumerate(sols):
             heap["s%d" % i] = tuple(sv)
@@ -692,6 +698,9 @@ def r7_mutation_components(ctx):
                     cnt += 1
                     where = (n, rate, field_rm, list(script))
                     gates = ms.get("gates", ())
+                    if ms.get("foreign_state"):
+                        bad.append(where + ("reads %s, the parameter state of a different instantiation than the one its own init inserts" % (ms["foreign_state"][0],),))
+                        continue
                     if end != "return" or not (isinstance(ret, Agg) and ret.variant == "Ok"):
                         bad.append(where + ("ends with %s %s" % (end, ret),))
                         continue
